@@ -20,6 +20,7 @@ type build struct {
 	last, rid, us *big.Int
 	doc           []byte
 	sel           string
+	fails         []int // url: members whose fetch is refused by the server
 }
 
 func (b *build) kase() *kase {
@@ -57,7 +58,12 @@ func (b *build) alts(x int) [][]byte {
 	g := &group{n: b.n, ids: b.ids()}
 	c0, ok := k.content0(g, k.submitter())
 	if !ok {
-		return nil
+		// nobody can compute the content (the selector fails everywhere): the other contents are free strings
+		c1 := append([]byte("other-content"), g.ids[k.submitter()]...)
+		if x < 0 {
+			return [][]byte{c1}
+		}
+		return [][]byte{c1, append([]byte("foo"), g.ids[x]...)}
 	}
 	c1 := append([]byte(nil), c0...)
 	c1[0] ^= 1
@@ -107,6 +113,13 @@ func (b *build) line(alts [][]byte, sched []string) string {
 		parsed = "err"
 		if p, ok := b.dataOf(b.last); ok {
 			parsed = h.Hex(p)
+		}
+		if len(b.fails) > 0 {
+			var f []string
+			for _, x := range b.fails {
+				f = append(f, fmt.Sprint(x))
+			}
+			parsed += "!" + strings.Join(f, ",")
 		}
 	}
 	return fmt.Sprintf("q %s %d %d %s %s %s %s %s %s %s %s %s %s", b.kind, b.n, b.seed, strings.Join(ids, ";"), bz, b.last, b.rid, b.us, h.Hex(b.doc), sel, parsed, al, sc)
@@ -169,7 +182,9 @@ func newBuild(rng *h.Rng, kind string, n, sub, flavour int, byz []int) *build {
 		b.us = new(big.Int).SetBytes(rng.Bytes(rng.Intn(33)))
 	case "url":
 		b.rid = new(big.Int).SetBytes(rng.Bytes(1 + rng.Intn(32)))
-		if rng.Intn(3) == 0 {
+		if r := rng.Intn(12); r == 0 {
+			b.doc, b.sel = []byte(`{"a":1`), "$.a" // does not parse: nobody can compute the content
+		} else if r < 4 {
 			b.doc, b.sel = []byte(docsXML[0]), selsXML[rng.Intn(len(selsXML))]
 		} else {
 			b.doc, b.sel = []byte(docsJSON[rng.Intn(len(docsJSON))]), selsJSON[rng.Intn(len(selsJSON))]
@@ -317,9 +332,6 @@ func gen(tier string, rng *h.Rng, emit func(string)) {
 				}
 				honestAll := append([]int{sub}, honest...)
 				alts := b.alts(x)
-				if alts == nil {
-					continue
-				}
 				ms := bh.msgs(x, honestAll)
 				base := append([]string{"S"}, shuffled(rng, hs)...)
 				var sched []string
@@ -378,9 +390,6 @@ func gen(tier string, rng *h.Rng, emit func(string)) {
 			b := newBuild(rng, kinds[(n+vi)%3], n, sub, fl, byz)
 			fl++
 			alts := b.alts(byz[0])
-			if alts == nil {
-				continue
-			}
 			var hs []string
 			for _, j := range honest {
 				hs = append(hs, fmt.Sprintf("h%d", j))
@@ -392,6 +401,67 @@ func gen(tier string, rng *h.Rng, emit func(string)) {
 					tok = fmt.Sprintf("m1.0.R%d.%d", victim, byz[0])
 				}
 				emit(b.line(alts, insertAt(base, pos, tok)))
+			}
+		}
+	}
+	// 2c. URL requests whose FETCH fails at some members only (the requester controls the server), Review A #1 /
+	//     finding F19: the submitter alone, the submitter together with a Byzantine cross-request replay that
+	//     carries another traffic type (pre-fix: the honest submitter reported it), a non-submitter, everybody.
+	for n := 3; n <= nsMax; n++ {
+		t := n/2 + 1
+		for v := 0; v < 6; v++ {
+			sub := rng.Intn(n)
+			x := (sub + 1 + rng.Intn(n-1)) % n
+			var byz []int
+			if v == 1 || v == 2 || v == 5 {
+				byz = []int{x}
+			}
+			b := newBuild(rng, "url", n, sub, fl, byz)
+			fl++
+			if v == 5 {
+				b.doc, b.sel = []byte(`{"a":1`), "$.a" // nobody has a content; the replayed one is "foo"
+			} else if string(b.doc) == `{"a":1` {
+				b.doc, b.sel = []byte(docsJSON[0]), selsJSON[0]
+			}
+			var hs []string
+			var honest []int
+			for j := 0; j < n; j++ {
+				if j != sub && (len(byz) == 0 || j != x) {
+					hs = append(hs, fmt.Sprintf("h%d", j))
+					honest = append(honest, j)
+				}
+			}
+			switch v {
+			case 0, 1, 2: // the submitter's fetch fails
+				b.fails = []int{sub}
+			case 3: // one non-submitter's fetch fails: the rest still reaches the threshold iff n-1 >= t
+				b.fails = []int{honest[rng.Intn(len(honest))]}
+			case 4: // so many fail that fewer than t members can sign
+				for _, j := range honest {
+					if len(b.fails) < n-t+1 {
+						b.fails = append(b.fails, j)
+					}
+				}
+			}
+			alts := b.alts(x)
+			base := append([]string{"S"}, shuffled(rng, hs)...)
+			var ms []string
+			if len(byz) > 0 {
+				suffix := "~7"
+				if v == 2 {
+					suffix = ""
+				}
+				for _, j := range append([]int{x}, append([]int{sub}, honest...)...)[:t] {
+					ms = append(ms, fmt.Sprintf("m1.2.V%d.2%s", j, suffix))
+				}
+			}
+			switch v % 3 {
+			case 0:
+				emit(b.line(alts, append(append([]string(nil), ms...), base...)))
+			case 1:
+				emit(b.line(alts, insertAt(base, 1, ms...)))
+			default:
+				emit(b.line(alts, append(append([]string(nil), base...), ms...)))
 			}
 		}
 	}
